@@ -185,14 +185,8 @@ func c01Gen(runSeed uint64, tier string) *gen.Scenario {
 }
 
 func c01Exec(t *testing.T, sc *gen.Scenario, trace bool) *harness.Outcome {
-	out := &harness.Outcome{Shape: ModelShape(sc.Model)}
-	msg := harness.Bubble(t, func(t *testing.T) {
-		e := Setup(t, sc, trace, out)
-		if e == nil {
-			simrt.End()
-			return
-		}
-		defer e.Close()
+	return runBubble(t, sc, trace, func(e *Env) {
+		out := e.Out
 		var chk checker
 		if sc.Knob("level", 0) == 1 {
 			s, err := e.NewServer()
@@ -212,7 +206,7 @@ func c01Exec(t *testing.T, sc *gen.Scenario, trace bool) *harness.Outcome {
 		faulty := sc.Knob("faults", 0) != 0
 		for i, rq := range sc.Requests {
 			ctx, cancel := context.WithTimeout(simrt.WithReq(context.Background(), fmt.Sprintf("r%d", i)), 3*time.Second)
-			allowed, err := chk(ctx, rq)
+			allowed, err := timed(e, fmt.Sprintf("Check(%s#%s@%s)", rq.Obj, rq.Rel, rq.User), func() (bool, error) { return chk(ctx, rq) })
 			cancel()
 			e.Run.Log("resp", fmt.Sprintf("r%d allowed=%v err=%v", i, allowed, err != nil))
 			e.JudgeCheck("v1", rq, stateFor(sc, rq), allowed, err, faulty)
@@ -222,10 +216,6 @@ func c01Exec(t *testing.T, sc *gen.Scenario, trace bool) *harness.Outcome {
 		}
 		out.NonTrivial = len(sc.Tuples) > 0 && out.Evals > 0
 	})
-	if msg != "" && out.Infra == "" && out.Violation == nil {
-		out.Infra = "bubble: " + msg
-	}
-	return out
 }
 
 // Props lists the checks hosted by this binary.
